@@ -55,6 +55,13 @@ CHECKS = [
         "text": "Decides order-independence structurally: every attribute/subscript store of the five _ingest_* methods is create-if-absent (aggregate constructed from its key only), flag, min/max with None alternative, set add, counter, assign-if-present from a unique-per-key record, or last-writer from a SER; verdict list fields are sorted, finalisation writes only idempotent min/max fall-backs; the run and launch verdict chains are expanded to full truth tables (8 and 32 rows) and agree with the documented table on all rows a trace prefix can produce; problems name exactly the missing edge; missing = expected - observed and orphan = observed - expected are computed whenever the canonical spec is known; roll-up counts every run's own verdict.",
         "note": "Assumes the producer invariant (at most one lifecycle record per key, one SER per started node - C06/C09 structurally) under which unique-per-key and last-writer stores commute. That real prefixes produce these atoms is not decided here.",
     },
+    {
+        "property_id": "C08",
+        "design_ref": "DESIGN.md section 3, C08",
+        "technique": "static analysis: order provenance (sorted / declaration / product order) by def-use, guard dominance of rejection tests on a CFG, bounded-materialisation rule (every product-sized construction dominated by a len()-only cap test)",
+        "text": "Decides: keys come from one sorted() definition feeding both modes, blocks in declaration order, products via itertools.product in that order, source fastest inside a combinatorial block; each duplicate / missing-column / length-mismatch guard raises the configuration error and dominates what it protects; the neutral [{}] stands in only for an absent side; every statement that materialises something of product size is dominated by a `size > spec.max_runs` test on a size computed from len()s, raising the max-runs error with its payload; only the two documented exception classes are raised. Four sites where a block is materialised before any cap test are recorded as known finding F-C08 (genuine defect, not repaired).",
+        "note": "Assumes itertools.product's enumeration order and file-order parsing. File contents / coercion values and measured memory are not decided.",
+    },
 ]
 _TODO = "check not built yet in this session (planned: DESIGN.md section 3); not claimed until its rules run clean and fire on their variants"
 NOT_APPLICABLE = [
